@@ -331,7 +331,44 @@ fn push_edit(b: &[u8]) -> Option<String> {
             let _ = rs.insert(r, None, None);
         }
     }
+    // rules already present may be of another kind than the one the edit names (`prekind`)
+    if let Some(pk) = v.get("prekind").and_then(|k| k.as_str()) {
+        let pk = RuleKind::from(pk);
+        for p in v.get("pre").and_then(|p| p.as_array()).into_iter().flatten() {
+            if let Some(r) = p.as_str().and_then(|p| mk(&pk, p)) {
+                let _ = rs.insert(r, None, None);
+            }
+        }
+    }
     let snapshot = serde_json::to_string(&rs).ok()?;
+    // `remove`, `set_enabled`, `set_actions` take the kind as the client wrote it in the URL — any string
+    match v.get("op").and_then(|o| o.as_str()).unwrap_or("insert") {
+        "remove" => {
+            let res = rs.remove(kind.clone(), &id);
+            let now = serde_json::to_string(&rs).ok()?;
+            if res.is_err() && now != snapshot {
+                return Some(format!("VIOLATION: a rejected rule removal ({:?}) changed the ruleset", res.err()));
+            }
+            return Some(format!("remove {}", res.is_ok()));
+        }
+        "set_enabled" => {
+            let res = rs.set_enabled(kind.clone(), &id, false);
+            let now = serde_json::to_string(&rs).ok()?;
+            if res.is_err() && now != snapshot {
+                return Some("VIOLATION: a rejected set_enabled changed the ruleset".to_owned());
+            }
+            return Some(format!("set_enabled {}", res.is_ok()));
+        }
+        "set_actions" => {
+            let res = rs.set_actions(kind.clone(), &id, vec![]);
+            let now = serde_json::to_string(&rs).ok()?;
+            if res.is_err() && now != snapshot {
+                return Some("VIOLATION: a rejected set_actions changed the ruleset".to_owned());
+            }
+            return Some(format!("set_actions {}", res.is_ok()));
+        }
+        _ => {}
+    }
     let res = rs.insert(mk(&kind, &id)?, after, before);
     let now = serde_json::to_string(&rs).ok()?;
     if res.is_err() && now != snapshot {
